@@ -384,7 +384,9 @@ func (c *fsCache) get(key string) ([]byte, error) {
 	}
 	if c.updateMTime {
 		mtime := time.Now()
-		if err := c.root.Chtimes(name, zeroTime, mtime); err != nil {
+		// A concurrent Delete may have removed the file since it was read: the
+		// Get came first and has its value.
+		if err := c.root.Chtimes(name, zeroTime, mtime); err != nil && !errors.Is(err, os.ErrNotExist) {
 			return nil, err
 		}
 	}
